@@ -5,6 +5,7 @@ import (
 	"errors"
 	"fmt"
 	"strings"
+	"syscall"
 
 	"verifsim/simfs"
 	"verifsim/simrt"
@@ -140,6 +141,10 @@ func runC14(r *R) {
 	if emptyList {
 		r.Note("chosencases-empty-list-written-out")
 	}
+	closeErr := r.F.Draw(8) == 0
+	if closeErr {
+		r.Fault("disk:close-error", true)
+	}
 	run := func(preload bool) *provOut {
 		conf := map[string]interface{}{"type": typ, "file": "/ammo/ammo.txt", "limit": limit, "passes": passes, "preload": preload}
 		if len(chosen) > 0 {
@@ -153,9 +158,14 @@ func runC14(r *R) {
 			conf["chosencases"] = []interface{}{}
 		}
 		plans := map[string]simfs.Plan{}
-		if chunk > 0 {
+		if chunk > 0 || closeErr {
 			p := simfs.NoPlan()
 			p.ReadChunk = chunk
+			if closeErr {
+				// closing the ammo file fails (a network file system reporting a late error): both modes deliver what
+				// they deliver without the fault and end with that error
+				p.CloseErr = syscall.EIO
+			}
 			plans["/ammo/ammo.txt"] = p
 		}
 		return runProvider(r, provRun{Conf: conf, Files: map[string][]byte{"/ammo/ammo.txt": file}, Plans: plans, Consumers: cons, CancelAfter: cancelAfter, Extract: extractHTTP}, false)
